@@ -232,7 +232,12 @@ class PyMachine:
         return "ok"
 
     def op_get(self, op):
-        self.env[op["dst"]] = self.env[op["a"]][self.mk_index(op)]
+        r = self.env[op["a"]][self.mk_index(op)]
+        if op.get("ro"):
+            # a read-only handle on the same data (np.broadcast_to / memmap / flags.writeable=False views): the model does
+            # not represent writability, programs never write through such a handle (generator invariant)
+            r._array.flags.writeable = False
+        self.env[op["dst"]] = r
         return "ok"
 
     def op_copy(self, op):
